@@ -115,6 +115,49 @@ func tallTiles(r *fw.Run) {
 	})
 }
 
+// DeepLogs: clients with the lowest tiles (height 1, 2) over logs deep enough that one read asks for more
+// than 16, 32, 64 tiles: sizes around 2^15, 2^16, 2^17 (height 1) and 2^16 (height 2), the same five-lookup
+// history as tallTiles. Sequential; shared with C01 (an honest server never makes a lookup fail).
+func DeepLogs(r *fw.Run) {
+	type job struct{ h, s1, s2 int }
+	var jobs []job
+	for _, k := range []int{15, 16, 17} {
+		n := 1 << uint(k)
+		jobs = append(jobs, job{1, n - 1, n}, job{1, n/2 + 1, n + 1}, job{1, 3, 2*n - 1})
+	}
+	jobs = append(jobs, job{2, 1<<16 - 1, 1<<16 + 1}, job{3, 5, 1<<17 - 1})
+	if !r.Thorough() {
+		jobs = []job{{1, 1<<15 - 1, 1 << 15}, {1, 1<<16 + 1, 1<<17 - 1}, {1, 3, 1 << 16}, {2, 1<<16 - 1, 1<<16 + 1}}
+	}
+	r.Bounds["deep_log_histories"] = fmt.Sprintf("%d (height, size, size) triples with tile heights 1-3 and logs of 2^15..2^18 records x 5 lookups by one client", len(jobs))
+	max := 0
+	for _, j := range jobs {
+		if j.s2 > max {
+			max = j.s2
+		}
+	}
+	lg := world.Honest(max + 1)
+	fw.Parallel(len(jobs), func(i int) {
+		j := jobs[i]
+		l := fw.NewLocal()
+		defer r.Merge(l)
+		c := tallCase{Scenario: "tall-tiles", Height: j.h, Size1: j.s1, Size2: j.s2}
+		l.States++
+		l.Execs++
+		l.Transitions += 5
+		l.Nontrivial++
+		if msg := tallExec(lg, c); msg != "" {
+			l.Outcomes["deep-logs:VIOLATION"]++
+			r.Violation(fmt.Sprintf("tall-tiles:%d:%d:%d", j.h, j.s1, j.s2), msg, c)
+		} else {
+			l.Outcomes["deep-logs:ok"]++
+		}
+	})
+}
+
+// ReplayTall replays a tall-tile / deep-log history (also for C01).
+func ReplayTall(r *fw.Run, raw json.RawMessage) bool { return replayTall(r, raw) }
+
 func replayTall(r *fw.Run, raw json.RawMessage) bool {
 	var c tallCase
 	if json.Unmarshal(raw, &c) != nil || c.Scenario != "tall-tiles" {
